@@ -1,4 +1,5 @@
 import SpoxModel.Model.Tensor
+import SpoxModel.Model.Float
 import SpoxModel.Model.AttrBase
 import SpoxModel.Generated.AttrKinds
 /-!
@@ -12,23 +13,25 @@ either the stored value and the `AttributeProto`, or the *class* of the exceptio
 Which classes use the generic `_validate`, their declared `AttributeProto` types and the guards in
 front of the validation come from `Generated/AttrKinds.lean`.
 
-Numeric conversions done by C/numpy (`(float)double`, `float(int)`) are carried by the value itself
-(`Atom.float bits f32`, `Atom.int n f32`): they are inputs of the model, not part of it.
+The numeric conversions on the float path — C's `(float)double` and Python's `float(int)` — are the
+bit-level functions `FloatBits.r32` and `FloatBits.i2d` of `Model/Float.lean` (round to nearest, ties to even).
 
 Part 2 — `Capture`: a heap of caller-owned mutable objects, the four ways a constructor can store an
 argument, caller-side mutations, and what spox later reads.
 -/
 namespace Attr
-open Tensor Generated.AttrKinds
+open Tensor Generated.AttrKinds FloatBits
+
+/-- `float(n)` narrowed to binary32; `none` = OverflowError. -/
+def intF32 (n : Int) : Option Nat := (i2d n).map r32
 
 /-- A Python value as an attribute constructor sees it (items of a list argument, or the argument). -/
 inductive Atom
   | none
   | bool (b : Bool)
-  /-- `f32 = some p`: `float(n)` exists and its binary32 conversion has pattern `p` -/
-  | int (n : Int) (f32 : Option Nat)
-  /-- a Python float (binary64 pattern) together with its C conversion to binary32 -/
-  | float (bits : Nat) (f32 : Nat)
+  | int (n : Int)
+  /-- a Python float, as its binary64 pattern -/
+  | float (bits : Nat)
   | str (cs : List Char)
   | bytes (bs : ByteArray)
   /-- an ndarray of one of the 16 representable element types -/
@@ -91,8 +94,8 @@ def inInt64 (n : Int) : Bool := decide (-(2 ^ 63 : Int) ≤ n) && decide (n < (2
 /-- `make_attribute(name, v)` on a non-iterable value; `none` = it (or protobuf) raises. -/
 def scalarProto (q : Bool) (name : String) : Atom → Option AProto
   | .bool b => some { name, type := INT, i := if b then 1 else 0 }          -- numbers.Integral
-  | .int n _ => if inInt64 n then some { name, type := INT, i := n } else none  -- protobuf: out of range
-  | .float _ f32 => some { name, type := FLOAT, f := f32 }
+  | .int n => if inInt64 n then some { name, type := INT, i := n } else none  -- protobuf: out of range
+  | .float b => some { name, type := FLOAT, f := r32 b }
   | .str cs => some { name, type := STRING, s := encodeStr cs }
   | .bytes bs => some { name, type := STRING, s := bs }
   | .ndarray a => match fromArray q a with                                     -- via from_array: a TensorProto
@@ -102,11 +105,11 @@ def scalarProto (q : Bool) (name : String) : Atom → Option AProto
   | _ => none
 
 def itemInt : Atom → Option Int
-  | .int n _ => if inInt64 n then some n else none      -- protobuf refuses bool and float in an int64 field
+  | .int n => if inInt64 n then some n else none      -- protobuf refuses bool and float in an int64 field
   | _ => none
 def itemFloat : Atom → Option Nat
-  | .float _ f32 => some f32
-  | .int _ f32 => f32
+  | .float b => some (r32 b)
+  | .int n => intF32 n
   | .bool b => some (if b then 0x3f800000 else 0)
   | _ => none
 def itemStr : Atom → Option ByteArray
@@ -151,7 +154,7 @@ def construct (q : Bool) (c : Cls) (name : String) (v : PyVal) : Outcome :=
     | .atom a =>
       -- `if isinstance(self.value, int): make_attribute(name, float(self.value))`
       let p := match a with
-        | .int _ f32 => f32.map fun p => ({ name, type := FLOAT, f := p } : AProto)
+        | .int n => (intF32 n).map fun p => ({ name, type := FLOAT, f := p } : AProto)
         | .bool b => some { name, type := FLOAT, f := if b then 0x3f800000 else 0 }
         | a => scalarProto q name a
       validated c v p
@@ -198,10 +201,10 @@ def construct (q : Bool) (c : Cls) (name : String) (v : PyVal) : Outcome :=
 /-- Declarative: the values each class is meant for. -/
 def rightKind (c : Cls) (v : PyVal) : Bool :=
   match c, v with
-  | .float32, .atom (.float _ _) => true
-  | .float32, .atom (.int _ f32) => f32.isSome
+  | .float32, .atom (.float _) => true
+  | .float32, .atom (.int n) => (intF32 n).isSome
   | .float32, .atom (.bool _) => true
-  | .int64, .atom (.int n _) => inInt64 n
+  | .int64, .atom (.int n) => inInt64 n
   | .int64, .atom (.bool _) => true
   | .string, .atom (.str _) => true
   | .string, .atom (.bytes _) => true
